@@ -62,6 +62,36 @@ CHECKS = {
             "ArrayData::validate_full is trusted as the validity oracle for returned batches",
         ],
     },
+    "C08": {
+        "crate": "checks",
+        "bin": "c08_corrupt",
+        "level": "exploration",
+        "stall_s": 120,
+        "max_skip_fraction": 0.10,
+        "rule": "one run = one generated workload written fault-free by the real writer, then 48 damaged copies of those bytes (12 for the IPC file reader, 192 for Variant), each produced by 1-3 faults of the simulated disk - bit flip, stuck byte, "
+                "truncation, 4/8-byte little-endian field inflated or deflated, varint continuation bits, lost (zeroed) / misdirected (copied from elsewhere) / torn 512-byte sector, splice from a second file of the same "
+                "format - placed uniformly, at the structure edges the writer's own write calls reveal, or in the tail; each copy is handed to the real safe reader; executions_of_real_code = reader executions; "
+                "distinct = distinct (reader, file length, fault positions and kinds)",
+        "required_probes": [],
+        "components": {
+            "real": ["arrow_ipc FileReader, StreamReader, StreamDecoder", "arrow_flight FlightRecordBatchStream / FlightDataDecoder (damaged header / body of one message)",
+                     "parquet ParquetRecordBatchReader over all codecs / page versions / dictionary settings / page index, ParquetMetaDataReader, ParquetMetaDataPushDecoder",
+                     "arrow_avro OCF Reader (all codecs)", "arrow_csv Reader, arrow_json Reader", "parquet_variant::Variant::try_new + full traversal (field_name, get, iter)", "the real writers that produce the inputs"],
+            "stub": ["the disk (SimDisk corruptor); sinks and sources are fault-free here"],
+            "not_run": ["Avro single-object decoder", "IPC FileDecoder", "Parquet files with encryption", "wholly random byte strings (every input is a damaged valid file)"],
+        },
+        "level_text": "seeded exploration of storage faults (single and few-fault corruptions, structure-biased) on files from the real writers of ten reader front ends; oracle: Err, or Ok with batches that pass full "
+                      "validation; no panic, no process abort, no hang (step budgets + supervisor stall watchdog), no single allocation above 256 MiB; sampling, not proof",
+        "design_ref": "DESIGN.md section 4 (C08), section 11",
+        "level_note": "what a damaged file should decode to is unconstrained - values are never compared; the validity oracle is RecordBatch / ArrayData::validate_full plus a full read through safe accessors (trusted); "
+                      "a run stops at its first violation, so with the known findings listed in known_findings.txt some corruptions behind a known panic site are not reached in that run; hangs are attributed by the "
+                      "supervisor's stall watchdog (120 s without progress in a worker whose runs take milliseconds, confirmed by re-execution in isolation)",
+        "technique": "deterministic simulation with fault injection: stored bytes are damaged by the simulated disk's fault kinds at seeded, structure-biased positions; supervisor attributes panics, aborts and hangs to the run; tape replay + shrinking",
+        "assumptions": TRUSTED + [
+            "ArrayData::validate_full is trusted as the validity oracle",
+            "a single allocation above 256 MiB while reading a file of a few KiB counts as memory unrelated to the input size (arrow-ipc's documented 64 MiB bounded pre-allocation stays below it)",
+        ],
+    },
     "C14": {
         "crate": "checks",
         "bin": "c14_chunk",
